@@ -22,6 +22,13 @@ TARGETS = TARGETS + ["theories/Proofs/GenEq_Backend.vo"]
 GENEQ = dict(GENEQ, **{"theories/Proofs/GenEq_Backend.vo": "Backend"})
 TARGETS = TARGETS + ["theories/Proofs/GenEq_EvalSM.vo"]
 GENEQ = dict(GENEQ, **{"theories/Proofs/GenEq_EvalSM.vo": "EvalSM"})
+# T1 units added after round 4 of the seeded changes
+TARGETS = TARGETS + ["theories/Proofs/GenEq_MetricCall.vo"]
+GENEQ = dict(GENEQ, **{"theories/Proofs/GenEq_MetricCall.vo": "MetricCall"})
+TARGETS = TARGETS + ["theories/Proofs/GenEq_AssdKernel.vo"]
+GENEQ = dict(GENEQ, **{"theories/Proofs/GenEq_AssdKernel.vo": "AssdKernel"})
+TARGETS = TARGETS + ["theories/Proofs/GenEq_ResultInit.vo"]
+GENEQ = dict(GENEQ, **{"theories/Proofs/GenEq_ResultInit.vo": "ResultInit"})
 ALLOWED_AXIOMS = []
 RULE = ("case = (label-map pair in 1-D/2-D/3-D incl. 0 instances, touching/split/merged/shifted/border instances; input type semantic/unmatched/"
         "matched; matching metric IOU/DSC/ASSD; thresholds incl. achieved scores; optional decision metric/threshold; backend default/cc3d/scipy); "
